@@ -2,6 +2,7 @@ import SugarModel.Props.C01
 import SugarModel.Props.C04
 import SugarModel.Props.C06
 import SugarModel.Props.C11
+import SugarModel.Props.C12
 import SugarModel.Props.C13
 import SugarModel.Props.C19
 import SugarModel.Props.C20
